@@ -33,7 +33,7 @@ def shards(tier, seed):
 def requirements(tier):
     r = {f"judged:{n}": 15 for n in NAMES}
     r.update({f"pref_judged:{n}": 5 for n in ["UPGrad", "DualProj", "AlignedMTL", "ConFIG", "Constant", "GradDrop"]})
-    r.update({"permutations_checked": 10000, "w_exhaustive_m4": 100, "w_m_ge_5": 50, "w_float32": 100})
+    r.update({"permutations_checked": 10000, "caller_owned_vector_checked": 200, "w_exhaustive_m4": 100, "w_m_ge_5": 50, "w_float32": 100})
     if tier == "thorough":
         r["w_exhaustive_m5"] = 100
     return r
@@ -70,6 +70,15 @@ def check_case(case, ctx):
     if g:
         ctx.not_judged(f"{name}:{g}")
         return
+    # the per-row vector lives in ONE tensor owned by the caller (as in user code): the aggregator is built from it, and the permuted
+    # vectors are derived from that same tensor AFTER the first call - an aggregator that modifies it in place is thereby visible
+    vkey = next((k for k in ("pref", "weights", "leak") if desc.get(k) is not None), None)
+    owner = None
+    if vkey is not None:
+        odt = torch.float64 if (desc.get("pref_dtype") or dname) == "float64" else torch.float32
+        owner = torch.tensor(desc[vkey], dtype=odt)
+        owner_before = owner.clone()
+        desc = {**desc, "_owned": owner}
     out1, err1, rec1 = E.run(desc, Jt, seed=case["seed"])
     if err1 is not None:
         ctx.violation("aggregator_raised", case, {"error": repr(err1)[:300], "on": "J"})
@@ -95,10 +104,12 @@ def check_case(case, ctx):
         prng = np.random.default_rng(case["pseed"])
         perms = [list(map(int, prng.permutation(m))) for _ in range(20)]
     eps = EPS[dname]
-    t = 4 * eps * np.sqrt(m) if name in ("TrimmedMean",) else E.tau(name, dname)
+    t = 4 * eps * np.sqrt(m) if name in ("TrimmedMean",) else E.tau(name, dname, desc, J)
     for perm in perms:
         J2t = Jt[torch.tensor(perm, dtype=torch.long)] if perm else Jt
-        d2 = E.permute_config(desc, perm)
+        d2 = E.permute_config({k: v for k, v in desc.items() if k != "_owned"}, perm)
+        if owner is not None:
+            d2["_owned"] = owner[torch.tensor(perm, dtype=torch.long)]
         out2, err2, rec2 = E.run(d2, J2t, seed=case["seed"])
         ctx.count("permutations_checked")
         if err2 is not None:
@@ -110,6 +121,10 @@ def check_case(case, ctx):
             ctx.violation("depends_on_the_order_of_the_objectives", case, {"permutation": perm, "A(J)": out1.tolist(), "A(J[perm])": out2.tolist(),
                                                                              "error_over_scale": err / scale})
             break
+    if owner is not None:
+        ctx.count("caller_owned_vector_checked")
+        if not torch.equal(owner, owner_before):
+            ctx.violation("aggregator_modified_the_callers_vector", {k: v for k, v in case.items()}, {"before": owner_before.tolist(), "after": owner.tolist()})
     ctx.count(f"judged:{name}")
     if any(desc.get(k) is not None for k in ("pref", "weights", "leak")):
         ctx.count(f"pref_judged:{name}")
@@ -123,7 +138,7 @@ def check_case(case, ctx):
         ctx.count("w_float32")
     distinct_rows = len({tuple(r) for r in J.tolist()}) == m
     ctx.evaluated(fingerprint(case), nontrivial=m >= 3 and (distinct_rows or any(desc.get(k) is not None for k in ("pref", "weights", "leak"))))
-    ctx.sample({"J": np.round(J, 4).tolist(), "agg": desc, "dtype": dname, "permutations": "all" if exh else 20, "class": case["class"]})
+    ctx.sample({"J": np.round(J, 4).tolist(), "agg": case["agg"], "dtype": dname, "permutations": "all" if exh else 20, "class": case["class"]})
 
 
 def run_shard(shard, ctx):
